@@ -2,4 +2,7 @@ package fuse
 
 var verifHarnesses = map[string]func(){
 	"VerifC07FuseReplica": VerifC07FuseReplica,
+	"VerifMountJournalTx": VerifMountJournalTx,
+	"VerifMountWALTx":     VerifMountWALTx,
+	"VerifMountLocks":     VerifMountLocks,
 }
